@@ -396,6 +396,52 @@ pub fn check_raw(case: &RawCase, st: &mut Stats, record: bool) -> Check {
     Ok(())
 }
 
+/// The FFI layer on the same files: one worker process per file; a non-zero
+/// exit status (a panic inside an exported function aborts) is a violation.
+pub fn check_ffi(case: &Case, st: &mut Stats) -> Check {
+    let bytes = build(case).map_err(|e| Fail::new(format!("{P} harness-encoder"), e))?;
+    let dir = std::env::var("VERIF_DIR").unwrap_or_else(|_| "/verif".into());
+    let worker = format!("{dir}/harness/target/release/ffiworker");
+    if !std::path::Path::new(&worker).exists() {
+        eprintln!("ffiworker is not built ({worker}); run ./setup.sh");
+        std::process::exit(2);
+    }
+    let tid = format!("{:?}", std::thread::current().id()).replace(|c: char| !c.is_ascii_digit(), "");
+    let path = format!("{dir}/work/ffi-{}-{tid}.msi", std::process::id());
+    std::fs::write(&path, &bytes).map_err(|e| Fail::new(format!("{P} harness-io"), e.to_string()))?;
+    let out = std::process::Command::new(&worker).arg(&path).env("RUST_BACKTRACE", "0").output();
+    let _ = std::fs::remove_file(&path);
+    let out = match out {
+        Ok(o) => o,
+        Err(e) => {
+            eprintln!("cannot run ffiworker: {e}");
+            std::process::exit(2);
+        }
+    };
+    if out.status.success() {
+        st.class("ffi:worker-ok");
+        return Ok(());
+    }
+    let stderr = String::from_utf8_lossy(&out.stderr).to_string();
+    let at = stderr.split("panicked at ").nth(1).and_then(|r| r.split(|c: char| c == '\n' || c == ' ').next()).map(|l| {
+        let l = l.trim_end_matches(':');
+        let mut parts = l.rsplitn(3, ':');
+        let _col = parts.next();
+        let line = parts.next().unwrap_or("");
+        let file = parts.next().unwrap_or(l);
+        format!("{}:{}", crate::engine::short_path(file), line)
+    });
+    use std::os::unix::process::ExitStatusExt;
+    if out.status.signal() == Some(9) {
+        eprintln!("ffiworker was killed (resource problem?): inconclusive");
+        std::process::exit(2);
+    }
+    Err(Fail::new(
+        format!("{P} ffi-died at={}", at.unwrap_or_else(|| "unknown".into())),
+        format!("the FFI worker (get_information + get_table for each table) ended with {:?}: {}", out.status, stderr.lines().take(4).collect::<Vec<_>>().join(" | ")),
+    ))
+}
+
 fn corrupt_strategy() -> impl Strategy<Value = Corrupt> {
     let small = prop::collection::vec(any::<u8>(), 1..5);
     prop_oneof![
@@ -476,6 +522,22 @@ pub fn run(ctx: &Ctx) -> Report {
         check_raw(c, st, true)
     }, &mut st);
     rep.push(v);
+    // the FFI layer on files from the same generator (plus the two shapes its
+    // code is most exposed to: a table stream that is a storage, a creation
+    // time beyond year 9999)
+    let v = search(ctx, "ffi", ctx.tier.pick(320, 5_000), || {
+        (case_strategy(), prop_oneof![3 => Just(None), 1 => any::<u16>().prop_map(|s| Some(Corrupt::ToStorage { stream: s })), 1 => Just(Some(Corrupt::Prop { kind: 13, which: 0 }))]).prop_map(|(mut c, extra)| {
+            if let Some(x) = extra {
+                c.corrupt.push(x);
+            }
+            c
+        })
+    }, |c: &Case, st| {
+        st.eval();
+        st.nontrivial(&("ffi", c));
+        check_ffi(c, st)
+    }, &mut st);
+    rep.push(v);
     // clean the per-thread "current case" notes of a run that ended normally
     if let Ok(rd) = std::fs::read_dir(format!("{}/work", ctx.verif_dir)) {
         for e in rd.flatten() {
@@ -522,6 +584,7 @@ pub fn replay(_ctx: &Ctx, doc: &J) -> Check {
     match doc["kind"].as_str().unwrap_or("") {
         "structured" => check_case(&serde_json::from_value::<Case>(doc["case"].clone()).map_err(bad)?, &mut st, false),
         "raw" => check_raw(&serde_json::from_value::<RawCase>(doc["case"].clone()).map_err(bad)?, &mut st, false),
+        "ffi" => check_ffi(&serde_json::from_value::<Case>(doc["case"].clone()).map_err(bad)?, &mut st),
         "file" => {
             // {"kind":"file","case":"<path>"}: a saved input (e.g. a libFuzzer artifact)
             let path = doc["case"].as_str().unwrap_or("");
